@@ -91,7 +91,7 @@ class Gen:
     def literal(self, ty):
         r = self.r
         if ty.startswith("uint") or ty.startswith("int"):
-            return self.pick(["0", "1", "2", "3", "4", "7", "8", "10", "16", "32", "100", "255", "256", "1000", "1e18", "10**18", "0x10", "1 ether", "2 days",
+            return self.pick(["0", "1", "2", "3", "4", "7", "8", "10", "16", "32", "100", "255", "256", "1000", "1e18", "10**18", "0x10", "1 ether", "2 days", "340282366920938463463374607431768211457", "340282366920938463463374607431768211456", "18446744073709551616", "57896044618658097711785492504343953926634992332820282019728792003956564819967",
                               str(r.randrange(1000))])
         if ty == "bool":
             return self.pick(["true", "false"])
